@@ -284,6 +284,7 @@ DOCUMENTED = {
     "astral.Observer": [("latitude", _REQ), ("longitude", _REQ), ("elevation", _REQ)],
     "astral.LocationInfo": [("name", _REQ), ("region", _REQ), ("timezone", _REQ), ("latitude", _REQ),
                             ("longitude", _REQ)],
+    "astral.location.Location": [("info", _REQ)],
     "astral.julian.julianday": [("at", _REQ), ("calendar", "GREGORIAN")],
     "astral.julian.julianday_modified": [("at", _REQ)],
     "astral.julian.julianday_to_datetime": [("jd", _REQ)],
